@@ -584,6 +584,7 @@ def run(ctx):
         if len(ctx.samples) < 3 and s['fault_acquire']:
             ctx.sample(dict(scenario=sc, events=[list(map(str, e)) for e in r['events'][:14]]))
     batch += directed_d18(ctx)
+    shared_requests(ctx, ctx.n(40, 500))
     ctx.extra['sections_replayed'] = agg.get('events', 0)
     ctx.extra['landing'] = {k: v for k, v in agg.items() if k != 'events'}
     check_coq(ctx, batch, 'res')
@@ -592,6 +593,66 @@ def run(ctx):
     # to scopes, cancels, until-interrupts, run(till)): whole-trace correspondence + a monitor on levels
     from harness import machine_prop
     machine_prop.run(ctx, [('resources', 120, 3000, {})], ['C12'])
+
+
+def shared_requests(ctx, n):
+    """directed family (direct API): ONE borrow object (`quota = supply.borrow(a=k)`) entered by several activities whose
+    blocks overlap, chain or nest borrowing from it.  From the text: every open block holds its amount - the supply reads
+    (total - k * open blocks), never below zero; when all are closed the supply is complete and the share is empty."""
+    import usim
+    from usim import time, Resources, Scope
+    rng = ctx.rng
+    for _ in range(n):
+        total, k = rng.choice([6, 10]), rng.choice([1, 2, 3])
+        users = [(rng.choice([0, 1, 2]), rng.choice([1, 2, 4])) for _ in range(rng.choice([2, 2, 3]))]
+        nested = rng.random() < 0.4
+        case = {'shared_request': dict(total=total, amount=k, users=users, nested=nested)}
+        supply = Resources(a=total)
+        quota = supply.borrow(a=k)
+        samples, bad = [], []
+        opened = [0]
+
+        async def user(start, hold):
+            if start:
+                await (time + start)
+            async with quota as share:
+                opened[0] += 1
+                if nested:
+                    async with share.borrow(a=1):
+                        await (time + hold)
+                else:
+                    await (time + hold)
+                opened[0] -= 1
+
+        async def sampler():
+            for _ in range(16):
+                await (time + 0.5)
+                samples.append((time.now, supply.levels.a, opened[0]))
+
+        async def main():
+            async with Scope() as scope:
+                for st, h in users:
+                    scope.do(user(st, h))
+                scope.do(sampler(), volatile=True)
+            await (time + 1)
+            samples.append(('end', supply.levels.a, quota.levels.a))
+        try:
+            usim.run(main())
+        except BaseException as e:   # noqa
+            ctx.fail(case, 'raised %r' % (e,), family='shared-requests')
+            continue
+        ctx.count(case, nontrivial=True)
+        ctx.bump('family:shared-requests')
+        for t, lvl, n_open in samples[:-1]:
+            if lvl < 0:
+                bad.append('at %r the supply reads %r' % (t, lvl))
+            # (blocks open and close at whole times only: half-way between nothing is in transition)
+            if t % 1 == 0.5 and lvl != total - k * n_open:
+                bad.append('at %r the supply reads %r with %d open blocks of %r (total %r)' % (t, lvl, n_open, k, total))
+        if samples[-1][1:] != (total, 0):
+            bad.append('after all blocks the supply reads %r of %r and the shared share %r' % (samples[-1][1], total, samples[-1][2]))
+        if bad:
+            ctx.fail(case, '; '.join(bad[:3]), family='shared-requests')
 
 
 def directed_d18(ctx):
